@@ -121,7 +121,7 @@ func c11HandOverFindsListener(c *Ctx) {
 	}
 	nilReturn := func(in ssa.Instruction) bool {
 		r, ok := in.(*ssa.Return)
-		return ok && len(r.Results) == 1 && isNilConst(r.Results[0])
+		return ok && len(r.Results) == 1 && isNilConst(unspill(r, 0))
 	}
 	isOneOf := func(set []ssa.Instruction) func(ssa.Instruction) bool {
 		return func(in ssa.Instruction) bool {
